@@ -55,7 +55,9 @@ theorem applyCmd_noVote {c : Config} {s : NodeState} {now : Nat} {e : Entry} {s'
   · cases h; exact noVote_nil
   · split at h
     · cases h
-    · cases h; exact noVote_single rfl
+    · split at h
+      · cases h; exact noVote_nil
+      · cases h; exact noVote_single rfl
   · cases h; exact noVote_nil
   · cases h; exact noVote_single rfl
 
